@@ -110,6 +110,55 @@ def fn_body(src, name, what, unique=False):
                 return src[i:j + 1]
     die("unbalanced braces in %s" % name)
 
+def body_span(text, paren_open):
+    """for a `fn name(` whose '(' is at paren_open: (start, end) of the body braces, or None for a declaration without body.
+    A `;` inside the parameter list or the return type (`[u8; N]`) is not the end of a declaration."""
+    depth = 0
+    j = paren_open
+    n = len(text)
+    while j < n:                       # the parameter list
+        if text[j] in '([': depth += 1
+        elif text[j] in ')]':
+            depth -= 1
+            if depth == 0:
+                break
+        j += 1
+    j += 1
+    depth = 0
+    while j < n:                       # return type / where clause
+        ch = text[j]
+        if ch in '([<': depth += 1
+        elif ch in ')]':
+            depth -= 1
+        elif ch == '>' and text[j - 1] != '-':
+            depth -= 1
+        elif ch == ';' and depth <= 0:
+            return None
+        elif ch == '{' and depth <= 0:
+            break
+        j += 1
+    if j >= n:
+        return None
+    i = j
+    depth = 0
+    instr = False
+    while j < n:
+        ch = text[j]
+        if instr:
+            if ch == '\\': j += 1
+            elif ch == '"': instr = False
+        elif ch == '"': instr = True
+        elif ch == '{': depth += 1
+        elif ch == '}':
+            depth -= 1
+            if depth == 0:
+                return i, j + 1
+        j += 1
+    return None
+
+def no_strings(body):
+    return re.sub(r'"(?:[^"\\]|\\.)*"', '""', body)
+
 def split_args(call_src, start):
     """argument text of the call whose '(' is at `start`"""
     depth = 0
@@ -468,19 +517,11 @@ def main():
             n = m.group(1)
             if n in skip:
                 continue
-            i = text.find('{', m.end())
-            semi = text.find(';', m.end())
-            if i < 0 or (0 <= semi < i):
+            sp = body_span(text, m.end() - 1)
+            if sp is None:
                 continue                      # a declaration without body
-            depth = 0
-            for j in range(i, len(text)):
-                if text[j] == '{': depth += 1
-                elif text[j] == '}':
-                    depth -= 1
-                    if depth == 0:
-                        sig = re.sub(r'\s+', '', text[m.start():i])
-                        out.append("%s %s" % (sig, re.sub(r'\s+', '', text[i:j + 1])))
-                        break
+            i, j = sp
+            out.append("%s %s" % (re.sub(r'\s+', '', text[m.start():i]), re.sub(r'\s+', '', text[i:j])))
         return out
     TRANSLATED_V = ("encrypt_server_header", "encrypt_client_header")
     def half_glue(enc_text, dec_text, what):
@@ -499,6 +540,33 @@ def main():
     bigi = src("src/bigint.rs")
     layout_put("glueSrp", lambda: all_fn_bodies(key, "key.rs", ("as_equal_slice",)) + all_fn_bodies(bigi, "bigint.rs") + all_fn_bodies(primes, "primes.rs"),
                "key.rs, bigint.rs, primes.rs: signature and body of every function (conversions between byte arrays and big integers, key checks) except the translated strip rule")
+
+    # SHAPE of the API-level logic (server.rs, client.rs, srp_internal*.rs, the three header mod.rs, pin / integrity / matrix_card): for every
+    # function the ordered list of calls, the control-flow keywords and the comparison / boolean operators.  Not the text (locals may be
+    # renamed, expressions reformatted) but enough that "compare, THEN draw the new challenge, unconditionally" or "refuse iff the proofs
+    # differ" cannot turn into something else unnoticed.
+    def fn_shapes(text, what):
+        out = []
+        for m in re.finditer(r'\bfn\s+(\w+)\s*(?:<[^>]*>)?\s*\(', text):
+            sp = body_span(text, m.end() - 1)
+            if sp is None:
+                continue
+            body = no_strings(text[sp[0]:sp[1]])
+            calls = re.findall(r'([A-Za-z_][A-Za-z0-9_]*(?:::[A-Za-z_][A-Za-z0-9_]*)*)\s*(?:::<[^>]*>)?\(', body)
+            calls = [c for c in calls if c not in ("if", "while", "for", "match", "Some", "Ok", "Err", "Self")]
+            ctrl = re.findall(r'\b(if|else|for|while|loop|match|return|break|continue)\b|(\?)', body)
+            ctrl = [a or b for a, b in ctrl]
+            ops = re.findall(r'==|!=|<=|>=|&&|\|\||(?<![-=<>])<(?![<=])|(?<![-=>])>(?![>=])', re.sub(r'::<[^>]*>|->|=>', '', body))
+            out.append("%s: calls=%s; control=%s; ops=%s" % (m.group(1), ",".join(calls), ",".join(ctrl), ",".join(ops)))
+        return out
+    srv_t, cli_t = src("src/server.rs"), src("src/client.rs")
+    layout_put("shapeSrpApi", lambda: fn_shapes(srv_t, "server.rs") + fn_shapes(cli_t, "client.rs"), "server.rs, client.rs: per function the ordered calls, control-flow keywords and comparison operators")
+    layout_put("shapeSrpInternal", lambda: fn_shapes(srpi, "srp_internal.rs") + fn_shapes(srpc, "srp_internal_client.rs") + fn_shapes(ns, "normalized_string.rs"),
+               "srp_internal.rs, srp_internal_client.rs, normalized_string.rs: per function the ordered calls, control-flow keywords and comparison operators")
+    layout_put("shapeHeaderMods", lambda: fn_shapes(van, "vanilla_header/mod.rs") + fn_shapes(tbm, "tbc_header/mod.rs") + fn_shapes(wm, "wrath_header/mod.rs") + fn_shapes(vint, "vanilla_header/internal.rs"),
+               "the three header mod.rs and vanilla_header/internal.rs: per function the ordered calls, control-flow keywords and comparison operators")
+    layout_put("shapeAux", lambda: fn_shapes(pin, "pin.rs") + fn_shapes(integ, "integrity.rs") + fn_shapes(mc, "matrix_card.rs") + fn_shapes(src("src/rc4.rs"), "rc4.rs"),
+               "pin.rs, integrity.rs, matrix_card.rs, rc4.rs: per function the ordered calls, control-flow keywords and comparison operators")
 
     # semantics the model takes from `#[derive(..)]`: Clone is a field-wise copy, == / Ord / Hash are structural over all fields,
     # nothing runs on drop, Default is what the listed impls say.  The translator lists (a) every hand-written impl of one of those
